@@ -14,6 +14,8 @@ macro_rules! harness {
         #[cfg_attr(all(kani, futures_buffered_verif_model), kani::stub(core::task::Waker::wake, crate::gh::stub_wake))]
         #[cfg_attr(all(kani, futures_buffered_verif_model), kani::stub(<core::task::Waker as core::clone::Clone>::clone, crate::gh::stub_clone))]
         #[cfg_attr(all(kani, futures_buffered_verif_model), kani::stub(<core::task::Waker as core::ops::Drop>::drop, crate::gh::stub_drop))]
+        #[cfg_attr(kani, kani::stub(alloc::alloc::alloc, crate::gh::alloc_stubs::alloc))]
+        #[cfg_attr(kani, kani::stub(alloc::alloc::realloc_nonnull, crate::gh::alloc_stubs::realloc_nonnull))]
         pub fn $name() {
             $body
         }
@@ -38,7 +40,7 @@ harness!(fub_poll_c2_quiet, fub::step_poll(&StepCfg { cap: 2, selfwakes: 0, mon:
 // racing wakes at the WakerList operation boundaries, stale handles, enqueues in flight: C01
 harness!(fub_poll_c2_env, fub::step_poll(&StepCfg { cap: 2, selfwakes: 0, mon: fub::M_ALL, env_budget: 1, inflight_ok: true, quiet: false, handles: true }));
 // per-poll budget of 61 child polls: one child that may wake itself on every poll
-harness!(fub_poll_budget, fub::step_poll(&StepCfg { cap: 1, selfwakes: 62, mon: fub::M_ALL, env_budget: 0, inflight_ok: false, quiet: false, handles: false }));
+harness!(fub_poll_budget, fub::budget());
 harness!(fub_push_c2, fub::step_push(&StepCfg { cap: 2, selfwakes: 0, mon: fub::M_ALL, env_budget: 0, inflight_ok: false, quiet: false, handles: false }));
 harness!(fub_push_c2_inflight, fub::step_push(&StepCfg { cap: 2, selfwakes: 0, mon: fub::M_ALL, env_budget: 0, inflight_ok: true, quiet: false, handles: false }));
 harness!(fub_push_c0, fub::step_push(&StepCfg { cap: 0, selfwakes: 0, mon: fub::M_ALL, env_budget: 0, inflight_ok: false, quiet: false, handles: false }));
@@ -59,9 +61,11 @@ harness!(fu_push_2, fu::step_push(&UCfg { caps: [2, 0, 0], n: 1, selfwakes: 0, q
 
 // FuturesOrderedBounded: symbolic 64-bit position counter (wrap + re-basing for every value)
 harness!(fob_poll_c2, fob::step_poll(&OCfg { cap: 2, max_parked: 1, selfwakes: 0 }));
+harness!(fob_poll_c2_p0, fob::step_poll(&OCfg { cap: 2, max_parked: 0, selfwakes: 0 }));
 harness!(fob_poll_c2_p2, fob::step_poll(&OCfg { cap: 2, max_parked: 2, selfwakes: 1 }));
 harness!(fob_push_c2, fob::step_push(&OCfg { cap: 2, max_parked: 1, selfwakes: 0 }));
 harness!(fob_new, fob::construct(2));
+harness!(fo_new, fob::construct_unbounded(2));
 // merges
 harness!(mb_poll_c2, mg::step_poll(&MCfg { cap: 2, selfwakes: 1, items: 1, quiet: false }));
 harness!(mb_poll_c2_quiet, mg::step_poll(&MCfg { cap: 2, selfwakes: 0, items: 1, quiet: true }));
@@ -80,11 +84,6 @@ harness!(ad_tbo_n2, ad::step_buffered_ordered(&ACfg { n: 2, selfwakes: 0, parked
 // join_all / try_join_all
 harness!(ja_poll_n2, ja::step_join_all(&JCfg { n: 2, selfwakes: 0 }));
 harness!(tja_poll_n2, ja::step_try_join_all(&JCfg { n: 2, selfwakes: 0 }));
-harness!(x_probe_rebase, fob::probe_rebase());
-harness!(x_fob_p0, fob::step_poll(&OCfg { cap: 1, max_parked: 0, selfwakes: 0 }));
-harness!(x_fob_p1, fob::step_poll(&OCfg { cap: 1, max_parked: 1, selfwakes: 0 }));
-harness!(x_h1e0, fub::step_poll(&StepCfg { cap: 2, selfwakes: 0, mon: fub::M_ALL, env_budget: 0, inflight_ok: false, quiet: false, handles: true }));
-harness!(x_h0e1, fub::step_poll(&StepCfg { cap: 2, selfwakes: 0, mon: fub::M_ALL, env_budget: 1, inflight_ok: false, quiet: false, handles: false }));
 
 /// name -> function, for the native replayer
 pub fn table() -> &'static [(&'static str, fn())] {
@@ -106,6 +105,8 @@ pub fn table() -> &'static [(&'static str, fn())] {
         ("fob_poll_c2_p2", fob_poll_c2_p2),
         ("fob_push_c2", fob_push_c2),
         ("fob_new", fob_new),
+        ("fo_new", fo_new),
+        ("fob_poll_c2_p0", fob_poll_c2_p0),
         ("ja_poll_n2", ja_poll_n2),
         ("tja_poll_n2", tja_poll_n2),
         ("ad_bu_n2", ad_bu_n2),
@@ -121,7 +122,6 @@ pub fn table() -> &'static [(&'static str, fn())] {
         ("mb_poll_c2_quiet", mb_poll_c2_quiet),
         ("mu_poll_12_c0", mu_poll_12_c0),
         ("mu_poll_12_c1", mu_poll_12_c1),
-        ("x_probe_rebase", x_probe_rebase),
         ("fu_poll_12_c1", fu_poll_12_c1),
         ("fu_poll_12_c2", fu_poll_12_c2),
         ("fu_push_12", fu_push_12),
@@ -133,38 +133,6 @@ pub fn table() -> &'static [(&'static str, fn())] {
     ]
 }
 
-#[cfg_attr(kani, kani::proof)]
-pub fn x_probe_nostub() {
-    crate::fob::probe_rebase()
-}
 
-#[cfg_attr(kani, kani::proof)]
-pub fn x_probe2() {
-    let mut f: futures_buffered::FuturesOrderedBounded<crate::child::Fut> = futures_buffered::FuturesOrderedBounded::new(2);
-    let (a, b) = f.verif_rebase_probe();
-    assert!(a == 0, "X:placeholder capacity not 0");
-    assert!(b == 1, "X:taken capacity not 1");
-    core::mem::forget(f);
-}
 
-#[cfg_attr(kani, kani::proof)]
-pub fn x_probe4() {
-    let (a, b, c, d) = futures_buffered::FuturesOrderedBounded::<crate::child::Fut>::verif_probe_caps();
-    assert!(a == 0, "X:default");
-    assert!(b == 0, "X:new");
-    assert!(c == 0, "X:vecnew");
-    assert!(d == 0, "X:taken");
-}
 
-#[cfg_attr(kani, kani::proof)]
-pub fn x_probe5() {
-    let mut f: futures_buffered::FuturesOrderedBounded<crate::child::Fut> = futures_buffered::FuturesOrderedBounded::new(2);
-    let r = f.verif_probe5();
-    assert!(r[0] == 1, "X:c0");
-    assert!(r[1] == 0, "X:cf");
-    assert!(r[2] == 0, "X:c1 after replace");
-    assert!(r[3] == 1, "X:ct");
-    assert!(r[4] == 0, "X:l1");
-    assert!(r[5] == 0, "X:c2 after take");
-    core::mem::forget(f);
-}
